@@ -314,6 +314,25 @@ theorem bindsAll_castExpr : ∀ (ps : List Param), bindsAll ps (ps.map castExpr)
   | [] => rfl
   | p :: ps => by simp [bindsAll, binds_castExpr_self, bindsAll_castExpr ps]
 
+/-! ### connect entry points -/
+
+/-- the table as it is: every one of the sixteen entry points takes a `slot_type`, by `const&` or by `&&`
+    according to its overload -/
+theorem entryDecl_eq (ep : EntryPoint) :
+    entryDecl ep = ⟨.slotType, match ep.ov with | .constRef => .cref | .rvalueRef => .rref⟩ := by
+  obtain ⟨⟨c, a, f⟩, o⟩ := ep
+  cases c <;> cases a <;> cases f <;> cases o <;> rfl
+
+/-- the temporary a converting constructor creates binds to the parameter of every entry point -/
+theorem refBindsTemp_entry (ep : EntryPoint) : refBindsTemp (entryDecl ep).shape = true := by
+  rw [entryDecl_eq]
+  cases ep.ov <;> rfl
+
+/-- a slot object is invoked like a function object with a const `operator()` of the same declared signature -/
+theorem invokeOk_slotObj (form : ArgForm) (ps : List Param) (r r' : Ret) (args : List ExprTy) :
+    invokeOk ⟨.slotObj form, ps, r⟩ args = invokeOk ⟨.fobjConst, ps, r'⟩ args := by
+  simp [invokeOk_eq, Kind.objOk]
+
 /-- the two spellings of the parameter pack of the erased call type coincide -/
 theorem takePack_eq_map : ∀ (as : List Param), takePack as = as.map fun a => CTy.par (take a)
   | [] => rfl
